@@ -59,7 +59,9 @@ impl InkList {
             ink_list.items.insert(item.clone(), *value);
         }
 
-        ink_list.initial_origin_names = other_list.initial_origin_names.clone();
+        // (the origins of its items if it has any: what is left when the copy is
+        // emptied still belongs to the same lists)
+        ink_list.set_initial_origin_names(other_list.get_origin_names());
 
         ink_list.origins = other_list.origins.clone();
 
@@ -221,7 +223,7 @@ impl InkList {
         }
 
         let mut sub_list = InkList::new();
-        sub_list.set_initial_origin_names(self.initial_origin_names.borrow().clone());
+        sub_list.set_initial_origin_names(self.get_origin_names());
 
         for (k, v) in ordered {
             if *v >= min_value && *v <= max_value {
